@@ -23,6 +23,30 @@ CHECKS = {
  'C11': ('reference-model monitor: strict 15.12.1 recogniser/builder and 15.12.2-3 algorithms; exact text comparison and round-trip laws',
          'Generated and mutated JSON texts, value DSL x replacer/space/reviver families; parse results, exact stringify text and round trips are compared with internal/refjson. Exploration.',
          'trusted base: internal/refjson (no encoding/json in the oracle)'),
+ 'C04': ('totality and well-formedness monitors over hostile inputs: recover() around the parser, position and span assertions, reflective child discovery vs ast.Walk event stream, constructive-invalidity oracle, runtime no-effect relation',
+         'Random bytes/token soup, truncations and token mutations of generated programs, valid programs with one provably invalid construct inserted, and nesting bombs are parsed in three modes; panics, out-of-range positions, accepted invalid programs, effects of rejected source on a runtime, ill-formed spans and Walk anomalies are reported. Exploration.',
+         'trusted base: list of invalid constructs (each invalid at top level whatever precedes it); reflection-based child discovery over ast struct fields'),
+ 'C08': ('reference-model monitor: every 15.4.4 algorithm and the 15.4.5.1 length semantics executed step by step on a model object, callbacks defined twice (JS and Go); known defects as deviation models',
+         'Array methods on arrays and array-likes of every shape x argument boundary values x callback family, plus index canonicalisation and length writes; return value, full receiver dump, callback log and error class are compared with internal/refarr. Exploration.',
+         'trusted base: internal/refarr'),
+ 'C09': ('reference-model monitor over UTF-16 code units (15.5 algorithms on []uint16), two injection routes, results read back as code units; known defects as deviation models',
+         'String methods x strings over ASCII/Latin-1/BMP/astral/lone-surrogate units x position boundary values x receiver kinds, compared exactly with internal/refstr. Exploration.',
+         'trusted base: internal/refstr; simple case mapping table generated from Unicode data'),
+ 'C10': ('reference-model monitor: ES5 15.10.2 backtracking matcher in continuation style + protocol algorithms; translation soundness by compiling every accepted pattern; RE2-semantics regions as narrow known findings',
+         'Patterns from the portable-subset grammar and mutations into unsupported/malformed ones x all subjects up to length 5 over a small alphabet x flags, and call histories on one RegExp carrying lastIndex, compared with internal/refre. Exploration.',
+         'trusted base: internal/refre'),
+ 'C12': ('reference-model monitor: 15.9.1 time-value algebra in exact float64/integer arithmetic (no package time)',
+         'Time values around every era/year/month/leap boundary, field tuples with overflow/negative/fractional/non-finite components and setter histories are compared with internal/refdate; ISO strings round-trip. Exploration.',
+         'trusted base: internal/refdate; TZ=UTC'),
+ 'C13': ('reference-model / relational monitor: 15.8.2 special-case tables transcribed cell by cell, exact round, sign/monotonicity/inverse relations; 15.1.3 Encode/Decode model over code units',
+         'Every Math function x boundary tuples; every code unit and astral pair through the URI functions and escape/unescape, with mutations of valid escapes. Exploration (thorough: exhaustive over single code units).',
+         'trusted base: internal/refmath, internal/refuri'),
+ 'C15': ('relational round-trip monitor (Go value -> Set -> Get/Export/To*/MarshalJSON and script-side probes), no model',
+         'Reflect-generated Go values of every supported kind at width boundaries and JS values from the boundary set; originals and read-backs must agree under the documented normal form; Go-API calls must equal in-language calls. Exploration.',
+         'trusted base: internal/refbridge (exact rational comparison, documented Export contract)'),
+ 'C16': ('exact-or-loud relation + shadow-model history checker for bridged containers',
+         'Go functions of every parameter type called with boundary JS values: the callee received exactly the denoted value or the script saw a TypeError/RangeError; histories of script and Go-side mutations on bridged slices/maps/structs compared with a shadow copy after every step. Exploration.',
+         'trusted base: internal/refbridge; otto README contract for bridged calls'),
  'C14': ('exhaustive table check of ES5 section 15 shape in 5 runtime contexts + distinguishing calls + recursive shape dumps',
          'A hand-transcribed table of every ES5.1 section 15 binding (kind, length, attributes, class, links) is evaluated exhaustively in fresh/second/underscore/Copy/Copy-of-Copy runtimes. Finite space enumerated completely (exhaustive: true).',
          'trusted base: internal/es5table transcription'),
